@@ -464,7 +464,14 @@ impl ApplicationHeader {
                     {
                         Some(monitoring.to_string())
                     } else {
-                        None
+                        // Not a monitoring code: the character would be silently dropped
+                        return Err(ParseError::InvalidBlockStructure {
+                            block: "2".to_string(),
+                            message: format!(
+                                "Invalid delivery monitoring code in Input Block 2: '{}'",
+                                monitoring
+                            ),
+                        });
                     }
                 } else {
                     None
